@@ -426,6 +426,19 @@ func (h *Hist) randomEvent() string {
 	if focus == "down" && r.chance(60) {
 		ev = r.pickI(10, 11, 12, 0, 1, 8, 13) // time passes between scale-down scans; a taint is lifted by hand now and then
 	}
+	if focus == "churn" && r.chance(20) {
+		// the cloud group grows by an instance (somebody raised the desired size) whose node is already due for removal
+		g := h.aws.asgs[o.CloudProviderGroupName]
+		if int64(len(g.Instances)) < g.Max {
+			cpu, mem := h.groupNodeSize(gi)
+			n := h.addNode(gi, cpu, mem, int64(r.pickI(50, 500)), true)
+			n.Taints = append(n.Taints, WTaint{Key: escKey, Effect: "NoSchedule", Rel: true, Ago: 2 * hard})
+			if g.Desired < int64(len(g.Instances)) {
+				g.Desired = int64(len(g.Instances))
+			}
+			return "deliver-due"
+		}
+	}
 	if focus == "churn" && r.chance(75) {
 		ev = r.pickI(4, 4, 5, 13, 13, 14, 14, 21, 0, 10, 18) // nodes come due for removal, instances arrive, the cloud group's minimum and desired size move
 	}
